@@ -61,7 +61,12 @@ def confirm(pid, which, checks=None):
     ok_clean, out_clean = demo()
     meta["confirmation"]["demo_passes_on_unmodified_tree"] = ok_clean
     r = sh("git -C %s apply %s" % (SCRATCH, os.path.join(src, "%s.diff" % which)))
+    if r.returncode != 0:
+        # the sub-agent's worktree may be a few (hook) commits behind /repo: fall back to a 3-way apply
+        r = sh("git -C %s apply --3way %s && git -C %s reset -q" % (SCRATCH, os.path.join(src, "%s.diff" % which), SCRATCH))
+        meta["confirmation"]["applied_3way"] = r.returncode == 0
     meta["confirmation"]["patch_applies"] = r.returncode == 0
+    rebased = sh("git -C %s diff" % SCRATCH).stdout
     b1 = sh("cd %s && cargo build --offline 2>&1 | tail -3" % SCRATCH)
     b2 = sh("cd %s && cargo build --offline --no-default-features --features %s 2>&1 | tail -3" % (SCRATCH, ALLF))
     meta["confirmation"]["builds_default_features"] = "Finished" in b1.stdout
@@ -86,6 +91,8 @@ def confirm(pid, which, checks=None):
     d = os.path.join(VERIF, "seeded", name)
     os.makedirs(d, exist_ok=True)
     shutil.copy(os.path.join(src, "%s.diff" % which), os.path.join(d, "patch.diff"))
+    if meta["confirmation"].get("applied_3way") and rebased:
+        open(os.path.join(d, "patch.diff"), "w").write(rebased)
     shutil.copy(os.path.join(src, "%s_demo.rs" % which), os.path.join(d, "demo.rs"))
     if os.path.exists(os.path.join(src, "%s.md" % which)):
         shutil.copy(os.path.join(src, "%s.md" % which), os.path.join(d, "notes.md"))
